@@ -110,7 +110,10 @@ def step_and_judge(sim, handed, nsteps):
     suspects = set()
     for k in range(nsteps):
         handed.clear()
-        sim.step()
+        try:
+            sim.step()
+        except RuntimeError:
+            return None, k       # the integrator reported an error (e.g. NaN in the BS substep): not this property's business
         now = set()
         for (h1, h2, depth) in overlapping(sim):
             key = frozenset((h1, h2))
